@@ -32,11 +32,18 @@ theorem onOut_eps_pev (op : LOp) (j : J) (E : List (Nat × JEp)) (p : Int) (k : 
 theorem onOut_eps_parm (op : LOp) (j : J) (E : List (Nat × JEp)) (p : Nat) :
     onOut op { j with eps := E } (.parm p) = { onOut op j (.parm p) with eps := E } := by
   simp only [onOut]
-  split
-  · split
-    · exact fail14_eps _ _ _
-    · rfl
-  · rfl
+  have hp : ({ j with eps := E } : J).pipes = j.pipes := rfl
+  rw [hp]
+  cases hl : j.pipes.lookup p with
+  | none => rfl
+  | some q =>
+    simp only [sock_eps]
+    cases h1 : q.closedInPre with
+    | true => simp only [if_true, fail14_eps]
+    | false =>
+      cases h2 : q.preWait with
+      | true => simp only [Bool.false_eq_true, if_false, if_true, fail14_eps]
+      | false => simp only [Bool.false_eq_true, if_false]
 
 
 /-- a change of one endpoint record that the pipe event handlers do not see -/
